@@ -496,6 +496,55 @@ func jobC13(c *rt.Ctx) {
 			}
 		}
 	}
+	// finite entropy sources that know their length (bytes.Reader, bytes.Buffer, strings.Reader) holding
+	// EXACTLY what the call consumes (16 bytes per entry of every batched chunk; the 1..3 entries left
+	// after the last chunk draw nothing): no error; one byte less: the reader's error
+	c.Require("entropy/exact-finite")
+	for _, n := range []int{0, 3, 4, 5, 64, 65, 66, 67, 68, 128, 130, 131, 132} {
+		for rk := 0; rk < 3; rk++ {
+			for short := 0; short < 2; short++ {
+				if !c.Take() {
+					continue
+				}
+				batched := n - n%64
+				if n%64 >= 4 {
+					batched = n
+				}
+				need := 16*batched - short
+				if need < 0 {
+					continue
+				}
+				buf := make([]byte, need)
+				for i := range buf {
+					buf[i] = byte(i*13 + 7)
+				}
+				var rd io.Reader
+				switch rk {
+				case 0:
+					rd = bytes.NewReader(buf)
+				case 1:
+					rd = bytes.NewBuffer(buf)
+				default:
+					rd = strings.NewReader(string(buf))
+				}
+				all, valid, err, pv := implBatchReader(fillers(vPure, n), vPure, false, rd)
+				c.Step(1)
+				c.Class("entropy/exact-finite")
+				c.Distinct(fmt.Sprintf("finite %d %d %d", n, rk, short), true)
+				wantErr := short == 1 && batched > 0
+				bad := pv != nil || (err != nil) != wantErr
+				if !bad && !wantErr {
+					bad = !all || len(valid) != n
+				}
+				if !bad && wantErr {
+					bad = all || valid != nil
+				}
+				if bad {
+					c.Violation(fmt.Sprintf("C13 entropy exact-finite wantErr=%v", wantErr), fmt.Sprintf("VerifyBatch of %d valid entries with a finite reader (kind %d) holding %d bytes (%d needed): err=%v all=%v panic=%v", n, rk, need, 16*batched, err, all, pv), map[string]interface{}{"n": n, "reader_kind": rk, "bytes": need})
+				}
+			}
+		}
+	}
 	// entropy answers (E2): per chunk the reader answers in {full, 1-byte reads, short then EOF, error at byte k}
 	answers := []entAnswer{{name: "full", failAt: -1}, {name: "1-byte-reads", failAt: -1, chunk1: true}, {name: "eof@0", failAt: 0, eof: true}, {name: "err@0", failAt: 0}, {name: "err@1", failAt: 1, chunk1: true}, {name: "err@15", failAt: 15, chunk1: true}, {name: "err@16", failAt: 16, chunk1: true}, {name: "err@63", failAt: 63, chunk1: true}, {name: "full-zero-bytes", failAt: -1, zero: true}, {name: "err+data@5-once", failAt: 5, transient: true}, {name: "err+data@40-once", failAt: 40, transient: true}}
 	sizesE := []int{3, 4, 64, 70, 130, 192}
